@@ -103,6 +103,14 @@ CHECKS = {
                       'and a push fails only if capacity items can have been present at some instant of the call',
         'level_note': LIN_NOTE,
     },
+    'C12': {
+        'technique': 'runtime monitoring: online exact-sequence oracle on a real producer/consumer thread pair with injected delays; push/pop fail rules from published counters; byte-exact record check; ASan; TSan payload happens-before monitor',
+        'level_text': 'One producer and one consumer thread drive WeakRingBuffer<T> (every push/pop/front overload, capacities 2-128, pow2 and non-pow2, static/dynamic buffers, batches up to capacity) and WeakRingBuffer<void> '
+                      '(capacities 64,104,128,1000,4096, record sizes 1..capacity-16 steering tails of 0/8/16 bytes): delivered values must be exactly 0,1,2,...; each byte record must have its exact size and keyed-PRNG content; '
+                      'a failed push/pop is a violation only when the published counters prove enough space/elements; plus a forked sequential probe for the full-ring front() assert defect (fixed in 6b53ed0)',
+        'level_note': 'trusted base: the harness oracle and counters, x86-64 TSO, sanitizer runtimes; WeakRingBuffer<void> capacity must be a multiple of 8 and records never wrap (a failed push on an empty ring is only a violation when 2x rounded size fits); '
+                      'record sizes above capacity-16 and batches == capacity are only driven in NDEBUG builds (library asserts)',
+    },
 }
 for e in ENGINES:
     e['serves_properties'] = sorted(CHECKS.keys())
